@@ -15,6 +15,7 @@ import (
 	"strings"
 	"sync"
 	"sync/atomic"
+	"syscall"
 	"testing"
 	"time"
 
@@ -54,6 +55,29 @@ type vrunner struct {
 	stallNs atomic.Int64
 	// `cfg.end stall`: slow, and at the disconnect the reader stalls for 150 ms with the queue full
 	stallAtEnd bool
+	// slow mode: the signal channel has the single slot of cmd/hidi/main.go, occupied by a signal of the operating system
+	// whenever an event is processed; its reader is slow as well
+	slowSigs int
+	sigAck   chan bool
+	// messages already reported, kept as received: a message must not change after it has been sent (a sender that
+	// re-uses its buffers changes what a receiver still holds)
+	kept    []midi.Event
+	keptStr []string
+}
+
+func (r *vrunner) slowSigReader(ch chan os.Signal, ack chan bool) {
+	for sg := range ch {
+		time.Sleep(20 * time.Microsecond)
+		switch sg {
+		case syscall.SIGUSR1:
+			ack <- true
+		case syscall.SIGTERM:
+		default:
+			r.slowMu.Lock()
+			r.slowSigs++
+			r.slowMu.Unlock()
+		}
+	}
 }
 
 var (
@@ -92,6 +116,12 @@ func (r *vrunner) fill() {
 	for i := 0; i < cap(r.midiOut); i++ {
 		r.midiOut <- sinkFiller
 	}
+	if r.sigAck != nil {
+		select {
+		case r.sigs <- syscall.SIGTERM:
+		default:
+		}
+	}
 }
 
 // settle waits until the slow reader has taken everything sent so far
@@ -101,6 +131,10 @@ func (r *vrunner) settle() {
 	}
 	r.midiOut <- sinkSentinel
 	<-r.slowAck
+	if r.sigAck != nil {
+		r.sigs <- syscall.SIGUSR1
+		<-r.sigAck
+	}
 }
 
 func atoi(s string) int {
@@ -127,15 +161,35 @@ func (r *vrunner) drain() string {
 	if r.slow {
 		r.settle()
 		r.slowMu.Lock()
+		for i, ev := range r.kept {
+			s := ""
+			for _, b := range ev {
+				s += fmt.Sprintf("%02x", b)
+			}
+			if s != r.keptStr[i] {
+				parts = append(parts, "CHANGED-AFTER-SENT:"+r.keptStr[i]+">"+s)
+				r.keptStr[i] = s
+			}
+		}
 		for _, ev := range r.slowBuf {
 			s := ""
 			for _, b := range ev {
 				s += fmt.Sprintf("%02x", b)
 			}
 			parts = append(parts, s)
+			r.kept, r.keptStr = append(r.kept, ev), append(r.keptStr, s)
+		}
+		if len(r.kept) > 64 {
+			r.kept, r.keptStr = r.kept[len(r.kept)-64:], r.keptStr[len(r.keptStr)-64:]
 		}
 		r.slowBuf = nil
+		for ; r.slowSigs > 0; r.slowSigs-- {
+			parts = append(parts, "SIG")
+		}
 		r.slowMu.Unlock()
+		if r.sigAck != nil {
+			return strings.Join(parts, " ")
+		}
 	}
 	for {
 		select {
@@ -183,6 +237,12 @@ func (r *vrunner) event(ie *input.InputEvent) string {
 				panicked = true
 			}
 		}()
+		if r.slow && r.stallAtEnd && ie.Event.Type == evdev.EV_KEY && ie.Event.Value == 1 &&
+			r.cfg.ActionMapping[ie.Event.Code] == config.Panic {
+			// the receiver stops for a moment just when the 129 messages of a panic arrive
+			r.stallNs.Store(int64(70 * time.Millisecond))
+			r.midiOut <- sinkFiller
+		}
 		r.fill()
 		r.dev.processEvent(ie)
 	}()
@@ -208,7 +268,8 @@ func (r *vrunner) line(toks []string) (string, bool) {
 		}
 		r.axes = map[string]map[evdev.EvCode]evdev.AbsInfo{}
 		r.dead = false
-		r.slow, r.slowBuf = false, nil // a slow reader of an earlier case stays parked on its own (empty) queue
+		r.kept, r.keptStr = nil, nil
+		r.slow, r.slowBuf, r.sigAck, r.slowSigs = false, nil, nil, 0 // a slow reader of an earlier case stays parked on its own (empty) queue
 		return "", false
 	case "cfg.map":
 		r.cfg.KeyMappings = append(r.cfg.KeyMappings, config.KeyMapping{
@@ -293,6 +354,11 @@ func (r *vrunner) line(toks []string) (string, bool) {
 		}
 		r.midiIn = make(chan midi.Event)
 		r.sigs = make(chan os.Signal, 1024)
+		if r.slow {
+			r.sigs = make(chan os.Signal, 1)
+			r.sigAck = make(chan bool)
+			go r.slowSigReader(r.sigs, r.sigAck)
+		}
 		inputDevice := input.Device{Name: "Dummy", DeviceType: input.KeyboardDevice, AbsInfos: r.axes}
 		res := "ok"
 		func() {
